@@ -14,7 +14,7 @@ ASSUMPTIONS = ['tm_exact oracle (self-validated each shard, incl. numerical conf
                'psf/convergence for the sign convention)']
 N = {'quick': 1500, 'thorough': 25000}
 SHARDS = {'quick': 16, 'thorough': 32}
-REQUIRED_COUNTERS = ['unjudged_calls_before_a_judged_one', 'across_antimeridian_cases', 'alias_sequences', 'near_axis_cases', 'psfconv_forward', 'psfconv_inverse', 'psfconv_agreement']
+REQUIRED_COUNTERS = ['unjudged_calls_before_a_judged_one', 'across_antimeridian_cases', 'alias_sequences', 'regime_run_sequences', 'near_axis_cases', 'psfconv_forward', 'psfconv_inverse', 'psfconv_agreement']
 
 
 def plan(tier, seed):
@@ -80,6 +80,9 @@ def run_shard(spec, ctx):
             if rnd.random() < 0.15:
                 _one(ns, ctx, tmwork.near_axis_grid_case(rnd))
                 ctx.count('near_axis_cases')
+            if i % 400 == 7:
+                _one(ns, ctx, tmwork.regime_run(rnd))
+                ctx.count('regime_run_sequences')
     finally:
         reach.stop()
         mon.detach()
